@@ -64,7 +64,38 @@ def _init():
     atexit.register(shutil.rmtree, base, True)
     _W.update(pd=pd, Dispatcher=Dispatcher, Validator=RemodelerValidator, validator=RemodelerValidator(), cli=run_remodel,
               base=base)
+    # class-level containers of the dispatcher and operation classes as they are in a fresh interpreter: every run starts
+    # from them (a run is a fresh process as far as the library can tell)
+    from hed.tools.remodeling.operations.valid_operations import valid_operations
+    classes = [Dispatcher] + sorted(set(valid_operations.values()), key=lambda c: c.__name__)
+    for c in list(classes):
+        for b in c.__mro__[1:]:
+            if b is not object and b not in classes:
+                classes.append(b)
+    snap = []
+    for c in classes:
+        for name, v in sorted(vars(c).items()):
+            if not name.startswith("__") and type(v) in (dict, list, set):
+                snap.append((c, name, v, copy.deepcopy(v)))
+    _W["class_state"] = (classes, snap)
     return _W
+
+
+def _fresh_process_state(W):
+    classes, snap = W["class_state"]
+    known = {(c, n) for c, n, _, _ in snap}
+    for c, name, obj, val in snap:
+        if type(obj) is list:
+            obj[:] = copy.deepcopy(val)
+        else:
+            obj.clear()
+            obj.update(copy.deepcopy(val))
+        if vars(c).get(name) is not obj:
+            setattr(c, name, obj)
+    for c in classes:
+        for name, v in list(vars(c).items()):
+            if not name.startswith("__") and (c, name) not in known and type(v) in (dict, list, set):
+                v.clear()
 
 
 # ------------------------------------------------------------------------------------------- tables
@@ -328,10 +359,15 @@ def generate(run_index, seed, tier):
         calls.append(["run", 0])
     sc["calls"] = calls
     sc["sched_seed"] = g.randrange(1 << 30)
+    sc["twin_first"] = g.chance(0.4)
     return sc
 
 
 def shrink(sc):
+    if sc.get("twin_first"):
+        c = copy.deepcopy(sc)
+        c["twin_first"] = False
+        yield c
     for i in range(len(sc["calls"])):
         if len(sc["calls"]) > 1:
             c = copy.deepcopy(sc)
@@ -635,6 +671,7 @@ def _snapshot_df(df):
 # ------------------------------------------------------------------------------------------- execution
 def execute(sc, script=None):
     W = _init()
+    _fresh_process_state(W)
     violations, probes, trace = [], {}, []
 
     def probe(k, n=1):
@@ -680,6 +717,28 @@ def execute(sc, script=None):
         _run_cli(W, sc, ops, viol, probe, trace, expect_invalid=False)
         return _result(sc, violations, probes, trace, True)
     Dispatcher = W["Dispatcher"]
+    if sc.get("twin_first"):
+        # another list was parsed and used in this process before: the same operations with every JSON number written in
+        # the other numeric type (1 <-> 1.0).  Whatever it does, it must not influence the list under test.
+        def retype(v):
+            if isinstance(v, bool):
+                return v
+            if isinstance(v, int):
+                return float(v)
+            if isinstance(v, float) and v == int(v):
+                return int(v)
+            if isinstance(v, list):
+                return [retype(x) for x in v]
+            if isinstance(v, dict):
+                return {k_: retype(x) for k_, x in v.items()}
+            return v
+        twin = retype(copy.deepcopy(sc["ops"]))
+        if twin != sc["ops"] or json.dumps(twin) != json.dumps(sc["ops"]):
+            probe("numeric_twin_list_used_first")
+            try:
+                Dispatcher(twin, data_root=None, backup_name=None).run_operations(_read(W, sc["tables"][0]))
+            except Exception:  # noqa - the twin is not under test
+                pass
     try:
         disp = Dispatcher(ops, data_root=None, backup_name=None)
     except Exception as e:  # noqa
